@@ -39,7 +39,9 @@ CHECKS.append(_check("C02", "mhkernel", "exploration",
            "earlier state on the same object, re-assignment of the scale, re-setting the target, reinitialise, and after the target "
            "raised in the middle of a transition (interrupt); NaN / -inf (with a NaN gradient) injected at proposals must never be "
            "accepted. Targets: smooth non-Gaussian reference densities, genuine cuqi Posterior objects, nonlinear-model posteriors "
-           "and (likelihood, prior) tuples for pCN.",
+           "and (likelihood, prior) tuples for pCN. A second part runs the gibbs engine: MH/CWMH/MALA/PCN as blocks of HybridGibbs, "
+           "where a block update that is reproduced only by a stand-alone kernel carrying the in-Gibbs cached values (and not by one "
+           "that evaluated the current conditional) is a stale-cache violation.",
            "Trusted: the law of the proposal noise (C05's business), the reference densities of the zoo. Invariance is inferred "
            "from exact acceptance + untouched state on reject, not measured.",
            "deterministic simulation: adversarial scheduling of the accept-site uniform against a reference MH model, NaN/-inf fault injection, local per-transition oracles",
@@ -106,7 +108,8 @@ CHECKS.append(_check("C08", "nuts", "exploration",
            "cached log-density and gradient, (D) the acceptance statistic and the dual-averaging step size. Merge and top-level "
            "uniforms are placed adversarially next to the reference's thresholds n''/(n'+n'') and min(1,n'/n); NaN/-inf/+inf leaves "
            "are injected and must never be selected; histories include rollback, re-setting the target, interrupts (the target "
-           "raises at an arbitrary leaf) and far-tail starts; the slice level must be finite. The distributional sentence (state after k transitions is again a draw) is not "
+           "raises at an arbitrary leaf), one saved state restored twice, and far-tail starts; the slice level must be finite. A second part "
+           "runs the gibbs engine (NUTS as a block of HybridGibbs: cache coherence at every block update). The distributional sentence (state after k transitions is again a draw) is not "
            "measured: it is the published theorem about the algorithm the implementation is shown to refine.",
            "Trusted: the reference implementation of the algorithm (90 lines), the zoo's reference densities. Undecided protocol "
            "mismatches are counted, never reported as violations.",
@@ -116,8 +119,8 @@ CHECKS.append(_check("C08", "nuts", "exploration",
 ENGINES = [
     {"name": "chain", "path": "engines/chain.py", "serves_properties": ["C14"],
      "kind_free_text": "seeded simulator of sampler runs: owns the random tape, the file system, the callback and the target callables; injects splits, checkpoints, crashes, restarts, I/O errors"},
-    {"name": "gibbs", "path": "engines/gibbs.py", "serves_properties": ["C09"],
-     "kind_free_text": "Gibbs orchestrators with real and scripted block samplers; reference model of current block values; tape rewind and stand-alone replay"},
+    {"name": "gibbs", "path": "engines/gibbs.py", "serves_properties": ["C09", "C02", "C08"],
+     "kind_free_text": "Gibbs orchestrators with real and scripted block samplers; reference model of current block values; tape rewind and stand-alone replay; reference kernels (conjugate pairs, randomise-then-optimise) written from the recipe"},
     {"name": "streams", "path": "engines/streams.py", "serves_properties": ["C05"],
      "kind_free_text": "two random-stream clients (own generator vs global stream) interleaved by the scheduler; solo-run equivalence"},
     {"name": "objhist", "path": "engines/objhist.py", "serves_properties": ["C11", "C01"],
